@@ -184,7 +184,7 @@ fn describe(e: &Expect, n: usize) -> String {
         e.notify,
         n,
         e.query.len(),
-        String::from_utf8_lossy(&e.query),
+        crate::common::trunc(&String::from_utf8_lossy(&e.query), 40),
         e.body_len
     )
 }
@@ -331,7 +331,7 @@ pub fn walk(stream: &[u8], book: &Book) -> Walk {
             let v = diagnose_unidentified(
                 stream,
                 pos,
-                format!("a frame header (id {}, notify {}, ec {}, query {:?}, body_length {}) that matches no submitted message", h.id, h.notify, h.ec, String::from_utf8_lossy(query), h.body_length),
+                format!("a frame header (id {}, notify {}, ec {}, {}-byte query {:?}, body_length {}) that matches no submitted message", h.id, h.notify, h.ec, query.len(), crate::common::trunc(&String::from_utf8_lossy(query), 48), h.body_length),
                 book,
             );
             let v = Viol { class: if v.class == "corrupt-stream" { "unknown-frame" } else { v.class }, detail: v.detail };
